@@ -106,6 +106,7 @@ type Effect struct {
 	base  ssa.Value // nil: unknown base (whole array)
 	param int       // index in fn.Params when base is a parameter, else -1
 	all   bool
+	origins  []*ssa.Function // with all: the called functions whose unknown effects this stands for (nil entry: external)
 	dyn      bool   // with all: may run code chosen at run time (function values, open interface calls, recursion)
 	pkg      string // with all: package of the repo function whose body gave rise to the effect
 	ghost    bool   // with all: specification-only (ghost) state may change too (explicit "modifies *" of a contract)
@@ -270,7 +271,7 @@ func (p *Prog) funcEffects(so *Sorts, fn *ssa.Function, visiting map[*ssa.Functi
 		return e
 	}
 	if visiting[fn] {
-		return []Effect{{all: true, dyn: p.bodyHasDyn(so, fn), pkg: pkgOf(fn)}}
+		return []Effect{{all: true, dyn: p.bodyHasDyn(so, fn), pkg: pkgOf(fn), origins: []*ssa.Function{fn}}}
 	}
 	if c := p.contracts.get(funcKey(fn)); c != nil && c.HasMod {
 		return p.contractEffects(so, fn, c)
@@ -279,7 +280,7 @@ func (p *Prog) funcEffects(so *Sorts, fn *ssa.Function, visiting map[*ssa.Functi
 		if p.externPure(fn) {
 			return nil
 		}
-		return []Effect{{all: true, pkg: "extern"}}
+		return []Effect{{all: true, pkg: "extern", origins: []*ssa.Function{nil}}}
 	}
 	visiting[fn] = true
 	effs := p.effectsOfBlocks(so, fn, fn.Blocks, visiting)
@@ -289,7 +290,7 @@ func (p *Prog) funcEffects(so *Sorts, fn *ssa.Function, visiting map[*ssa.Functi
 	for _, e := range effs {
 		if e.all {
 			// summarise: dyn if any all-effect is dyn; origin package = this function unless all are external
-			agg := Effect{all: true, pkg: pkgOf(fn), dyn: p.bodyHasDyn(so, fn)}
+			agg := Effect{all: true, pkg: pkgOf(fn), dyn: p.bodyHasDyn(so, fn), origins: []*ssa.Function{fn}}
 			for _, e2 := range effs {
 				if e2.all {
 					agg.dyn = agg.dyn || e2.dyn
@@ -318,11 +319,16 @@ func (p *Prog) contractEffects(so *Sorts, fn *ssa.Function, c *Contract) []Effec
 	var out []Effect
 	for _, m := range c.Modifies {
 		if m == "*" {
-			return []Effect{{all: true, ghost: true, dyn: p.bodyHasDyn(so, fn), pkg: pkgOf(fn)}}
+			return []Effect{{all: true, ghost: true, dyn: p.bodyHasDyn(so, fn), pkg: pkgOf(fn), origins: []*ssa.Function{fn}}}
+		}
+		if m == "callbacks" {
+			// resolved at each call site: the effects of the function values passed as arguments
+			out = append(out, Effect{key: "$callbacks", param: -3})
+			continue
 		}
 		if m == "heap" {
 			// everything except ghost (specification-only) state
-			out = append(out, Effect{all: true, dyn: p.bodyHasDyn(so, fn), pkg: pkgOf(fn)})
+			out = append(out, Effect{all: true, dyn: p.bodyHasDyn(so, fn), pkg: pkgOf(fn), origins: []*ssa.Function{fn}})
 			continue
 		}
 		if strings.HasPrefix(m, "elems(") {
@@ -373,6 +379,23 @@ func (p *Prog) contractEffects(so *Sorts, fn *ssa.Function, c *Contract) []Effec
 			continue
 		}
 		parts := strings.Split(m, ".")
+		if len(parts) == 3 {
+			// pkg.Type.field: any object of that type
+			done := false
+			for _, sp := range p.prog.AllPackages() {
+				if sp.Pkg.Name() == parts[0] && strings.HasPrefix(sp.Pkg.Path(), "grol.io/grol") {
+					if tn := sp.Pkg.Scope().Lookup(parts[1]); tn != nil {
+						if fi, ok := findField(tn.Type(), parts[2]); ok {
+							out = append(out, Effect{key: regFieldKey(so, tn.Type(), fi), param: -1})
+							done = true
+						}
+					}
+				}
+			}
+			if done {
+				continue
+			}
+		}
 		if len(parts) == 2 {
 			found := false
 			pnames, ptypes := sigParams(fn)
@@ -676,19 +699,41 @@ func (ex *Exec) applyEffects(h *Heap, effs []Effect, l *Loop, guard Term) *Heap 
 					ghostToo = true
 				}
 			}
-			nh := ex.havocAllKeep(h, guard)
-			keepEval := true
+			nh := ex.havocAllKeep(h, guard, l)
+			// which struct fields / globals can the code behind these effects write at all?
+			anyDyn := false
+			var origins []*ssa.Function
 			for _, e2 := range effs {
-				if e2.all && (e2.dyn || importsEval(e2.pkg)) {
-					keepEval = false
+				if e2.all {
+					if e2.dyn || len(e2.origins) == 0 {
+						anyDyn = true
+					}
+					origins = append(origins, e2.origins...)
 				}
+			}
+			keepEval := !anyDyn
+			canWrite := func(k string) bool {
+				if anyDyn {
+					return true
+				}
+				for _, w := range ex.P.writersOf(q.so, k) {
+					for _, o := range origins {
+						if o != nil && ex.P.reaches(o, w) {
+							return true
+						}
+					}
+				}
+				return false
 			}
 			// code outside package eval (and not running caller-chosen code) cannot write eval's struct fields;
 			// ghost state changes only through explicit "modifies *" / "modifies ghost" clauses
 			nh.gen.parent = h.clone()
 			nh.gen.keep = func(k string) bool {
-				if keepEval && strings.HasPrefix(k, "F:grol.io/grol/eval.") {
-					return true
+				if keepEval && (strings.HasPrefix(k, "F:") || strings.HasPrefix(k, "G:")) && !strings.HasPrefix(k, "F:anon") {
+					// write audit: no function reachable from the callees stores to this field / global
+					if _, isArr := q.so.keySort[k]; isArr && !canWrite(k) {
+						return true
+					}
 				}
 				return !ghostToo && strings.HasPrefix(k, "GH:")
 			}
@@ -960,4 +1005,57 @@ func (p *Prog) bodyHasDyn(so *Sorts, fn *ssa.Function) bool {
 		}
 	}
 	return p.dynSet[fn]
+}
+
+// writersOf: repo functions containing a store whose location is heap key k (struct field or global).
+func (p *Prog) writersOf(so *Sorts, k string) []*ssa.Function {
+	if p.writers == nil {
+		p.writers = map[string][]*ssa.Function{}
+		scratch := newSorts(false)
+		for _, f := range p.allFuncs() {
+			seen := map[string]bool{}
+			for _, b := range f.Blocks {
+				for _, ins := range b.Instrs {
+					st, ok := ins.(*ssa.Store)
+					if !ok {
+						continue
+					}
+					key, _, _, _, ok2 := p.addrEffect(scratch, st.Addr)
+					if !ok2 {
+						// whole-struct store through a pointer: every field
+						if pt, isPtr := st.Addr.Type().Underlying().(*types.Pointer); isPtr {
+							if stt, isStruct := pt.Elem().Underlying().(*types.Struct); isStruct {
+								for i := 0; i < stt.NumFields(); i++ {
+									kk := fieldKey(pt.Elem(), i)
+									if !seen[kk] {
+										seen[kk] = true
+										p.writers[kk] = append(p.writers[kk], f)
+									}
+								}
+							}
+						}
+						continue
+					}
+					if (strings.HasPrefix(key, "F:") || strings.HasPrefix(key, "G:")) && !seen[key] {
+						seen[key] = true
+						p.writers[key] = append(p.writers[key], f)
+					}
+				}
+			}
+		}
+	}
+	return p.writers[k]
+}
+
+// reaches: w is reachable from f through static calls, closures created, and interface dispatch to repo methods.
+func (p *Prog) reaches(f, w *ssa.Function) bool {
+	if p.reachCache == nil {
+		p.reachCache = map[*ssa.Function]map[*ssa.Function]bool{}
+	}
+	r, ok := p.reachCache[f]
+	if !ok {
+		r = p.reachableFrom([]*ssa.Function{f})
+		p.reachCache[f] = r
+	}
+	return r[w]
 }
